@@ -30,6 +30,7 @@ RULE = (
     "(3 folds: 6, thorough 4 folds: 24), with and without --ensemble, across hash seeds. No tolerance: digests must be equal. Non-trivial = "
     "a group with >= 2 distinct hash seeds or >= 2 worker counts whose runs all succeeded; distinct = group id."
     " The API groups without FASTA use a spectrum key with a string-valued member (file name)."
+    " A third of the repeat groups use brew's own default model (model=None), seeded only through brew(rng=...)."
 )
 ASSUMPTIONS = [
     "np.random.seed(seed) is part of 'a fixed seed' for the API path (the CLI does the same; decoy->target matching uses the global state)",
@@ -79,13 +80,23 @@ def build_api(case, d, vseed):
     g = case["group"]
     fasta_mode = case.get("fasta_mode") or ["decoys", "target_only", "none"][g % 3]
     learner = ["percolator", "svc", "linear"][(g // 3 + g) % 3]
+    if case.get("class") == "repeat" and g % 3 == 2:
+        learner = "default"    # model=None: brew builds its own model, the only seed is brew(rng=...)
     spec = dict(folds=int(2 + g % 3), seed=int(rng.integers(1 << 30)), test_fdr=0.1, train_fdr=0.1, max_iter=2,
                 peps_algorithm="qvality", delay=0.003)
     if learner == "percolator":
         spec["percolator"] = True
+    elif learner == "default":
+        spec["default_model"] = True
     else:
         spec["learner"] = learner
-    if fasta_mode == "none":
+    if learner == "default":
+        # the default model trains at a 1 % FDR: it needs a larger, well separated table; several informative
+        # features so that the hyper-parameter search has something to choose between
+        fasta_mode = "none"
+        tab = psm.psm_table(rng, n_spectra=1500, mult_max=2, key_cols=("ExpMass",), sep_strength=3.0, pi1=0.5, n_info=3, n_noise=6,
+                            with_rid=False)
+    elif fasta_mode == "none":
         # spectrum key with a string-valued member (the MS file name): anything derived from it by hashing must not
         # depend on the interpreter's hash seed
         tab = psm.psm_table(rng, n_spectra=int(rng.integers(250, 400)), mult_max=3, key_cols=("filename", "ExpMass"), n_files=3, ties=True,
